@@ -93,7 +93,9 @@ func (s *Server) DidChange(ctx context.Context, params *lsp.DidChangeTextDocumen
 		return nil
 	}
 	filename := params.TextDocument.URI.Filename()
-	content := params.ContentChanges[0].Text
+	// We ask for full document syncs, so every change carries the whole text and
+	// the last one is the current state of the document.
+	content := params.ContentChanges[len(params.ContentChanges)-1].Text
 	s.docs[filename] = &document{
 		version: uint32(params.TextDocument.Version),
 		content: content,
